@@ -542,6 +542,135 @@ func c13PipeEMT(r *Rng, tier string, o *Out) {
 	}
 }
 
+// c13DCFree: a linear model whose basis does NOT span a constant (pulse shapes that are zero before the trigger;
+// projectors = pseudo-inverse made orthogonal to a constant, so P·shape_k = e_k and P·1 = 0), applied to records on a
+// HIGH baseline that the model fits well.  The residual is then "baseline + quantisation noise / a one-count glitch":
+// a mean of tens of thousands with a spread below one count - where any one-pass <a^2> - <a>^2 loses 5..13 digits
+// while the two-pass definition keeps full accuracy.
+func c13DCFree(r *Rng, tier string, o *Out) {
+	maxLen := 500
+	if tier == "thorough" {
+		maxLen = 1200
+	}
+	npre := r.Pick(3, 20, r.Range(3, maxLen/2), r.Range(50, maxLen/2))
+	npost := r.Range(20, maxLen)
+	n := npre + npost
+	k := r.Pick(1, 1, 1, 2, 3)
+	integerShape := r.Chance(35)
+	shapes := make([][]float64, k)
+	for j := range shapes {
+		sh := make([]float64, n)
+		t1 := float64(r.Range(npost/4+2, npost)) / float64(j+1)
+		t2 := float64(r.Range(2, 12))
+		for i := npre; i < n; i++ {
+			x := float64(i - npre)
+			if integerShape && j == 0 {
+				sh[i] = math.Min(x, float64(n-i)) // triangular, integer valued: fitted exactly
+			} else {
+				sh[i] = math.Exp(-x/t1) - math.Exp(-x/t2)
+			}
+		}
+		shapes[j] = sh
+	}
+	// projectors P = (C^T S)^-1 C^T with C = centred shapes: P·S = I, P·1 = 0
+	cent := make([][]float64, k)
+	for j := range cent {
+		m := 0.0
+		for _, v := range shapes[j] {
+			m += v
+		}
+		m /= float64(n)
+		cent[j] = make([]float64, n)
+		for i, v := range shapes[j] {
+			cent[j][i] = v - m
+		}
+	}
+	g := make([][]float64, k) // g = C^T S (k x k), augmented with the identity
+	for a := 0; a < k; a++ {
+		g[a] = make([]float64, 2*k)
+		for b := 0; b < k; b++ {
+			for i := 0; i < n; i++ {
+				g[a][b] += cent[a][i] * shapes[b][i]
+			}
+		}
+		g[a][k+a] = 1
+	}
+	for c := 0; c < k; c++ { // Gauss-Jordan
+		piv := c
+		for a := c + 1; a < k; a++ {
+			if math.Abs(g[a][c]) > math.Abs(g[piv][c]) {
+				piv = a
+			}
+		}
+		g[c], g[piv] = g[piv], g[c]
+		if g[c][c] == 0 {
+			return // degenerate shapes: skip this case
+		}
+		d := g[c][c]
+		for b := range g[c] {
+			g[c][b] /= d
+		}
+		for a := 0; a < k; a++ {
+			if a != c {
+				f := g[a][c]
+				for b := range g[a] {
+					g[a][b] -= f * g[c][b]
+				}
+			}
+		}
+	}
+	proj := make([]float64, k*n)
+	basis := make([]float64, n*k)
+	for a := 0; a < k; a++ {
+		for i := 0; i < n; i++ {
+			for b := 0; b < k; b++ {
+				proj[a*n+i] += g[a][k+b] * cent[b][i]
+			}
+			basis[i*k+a] = shapes[a][i]
+		}
+	}
+	for _, v := range proj {
+		if math.IsNaN(v) || math.IsInf(v, 0) || (v != 0 && (math.Abs(v) < 1e-9 || math.Abs(v) > 1e6)) {
+			return // outside the exponent range the protocol assumes
+		}
+	}
+	signed := r.Chance(40)
+	base := r.Range(60000, 65000)
+	amp := -float64(r.Pick(0, 3, 40, 500, 4000)) // negative going: stays below full scale
+	if r.Chance(30) {
+		base = r.Range(40000, 60000)
+		amp = float64(r.Pick(1, 7, 100, 2000))
+	}
+	if signed {
+		base = r.Pick(1, -1) * r.Range(26000, 30000)
+		amp = float64(r.Pick(0, 5, 80, 900)) * float64(r.Pick(1, -1))
+	}
+	if integerShape {
+		amp = math.Round(amp / 500 * 4) // integer amplitude x integer shape, |amp|*n/2 stays in range
+		if math.Abs(amp)*float64(n)/2 > 2000 {
+			amp = float64(r.Pick(0, 1, -1, 2))
+		}
+	}
+	noise := r.Pick(0, 0, 1, 1, 2)
+	data := make([]dastard.RawType, n)
+	for i := range data {
+		v := float64(base) + amp*shapes[0][i]
+		for j := 1; j < k; j++ {
+			v += amp / float64(3*j) * shapes[j][i]
+		}
+		iv := int(math.Round(v)) + r.Range(-noise, noise)
+		data[i] = dastard.RawType(((iv % 65536) + 65536) % 65536)
+	}
+	if r.Chance(40) { // a single one-count glitch
+		j := r.Intn(n)
+		data[j] = dastard.RawType((int(data[j]) + r.Pick(-1, 1) + 65536) % 65536)
+	}
+	in := append([]dastard.RawType{}, data...)
+	rec, setErr := dastard.VerifAnalyze(npre, n, signed, in, k, n, proj, n, k, basis)
+	o.Case("src direct-dcfree npre %d cfgnpre %d nsamp %d signed %d data %s %s %s", npre, npre, n, b2i(signed), ints(data),
+		c13Mats(k, n, proj, n, k, basis), c13Out(rec, setErr))
+}
+
 func genC13(r *Rng, tier string, o *Out) {
 	c13Fixed(o)
 	n := 520
@@ -549,7 +678,9 @@ func genC13(r *Rng, tier string, o *Out) {
 		n = 2500
 	}
 	for o.n < n {
-		if r.Chance(2) {
+		if r.Chance(12) {
+			c13DCFree(r, tier, o)
+		} else if r.Chance(2) {
 			c13PipeEMT(r, tier, o)
 		} else if r.Chance(2) {
 			c13Pipe(r, tier, o)
